@@ -118,3 +118,53 @@ def abstract(s):
                 else:
                     toks.append(f"x:{num(name)}")
     return toks, skipped
+
+
+def abstract_in(s):
+    """inbound side (lean/Mqtt5V/Model/TraceIn.lean):
+      U:<sp>  new connection         P:<qos>:<pid>:<msg>  PUBLISH dispatched        L:<pid>:<good>  PUBREL dispatched
+      W / p:A|R|C:<pid> / p:o / K / F   a write, its acknowledgements, its end       d:<qos>:<pid>:<msg>  message handed to async_receive
+      X  cancel()/disconnect closed the client"""
+    intern = Interner()
+    toks = []
+    first = {}          # message identity -> (qos, pid) of its first PUBLISH
+    for line, evs, st, t in s.tr:
+        ws = line.split()
+        if not ws or evs == ["<crash>"] or evs == ["<bad-op>"]: break
+        cmd = ws[0]
+        if cmd == "reconnect": toks.append(f"U:{ws[2]}")
+        elif cmd == "wdone": toks.append("K" if ws[2] == "ok" else "F")
+        for e in evs:
+            es = e.split()
+            if es[0] == "pkt":
+                cb = int(es[1], 16); body = bytes.fromhex(es[2]) if es[2] != "-" else b""
+                p = bytes([cb]) + ref.e_vint(len(body)) + body
+                if cb & 0xF0 == 0x30:
+                    try: d = ref.decode(p, lenient=True)
+                    except ref.Malformed: continue
+                    key = ("msg", d["topic"], d["payload"], repr(sorted(M.canon_props(d["props"]).items(), key=repr)))
+                    m = intern(key); pid = d["pid"] or 0
+                    first.setdefault(m, (d["qos"], pid))
+                    toks.append(f"P:{d['qos']}:{pid}:{m}")
+                elif cb == 0x62 and len(body) >= 2:
+                    try:
+                        d = ref.decode(p, lenient=True); good = d["rc"] in (0, 0x92)
+                    except ref.Malformed:
+                        d = {"pid": int.from_bytes(body[:2], "big")}; good = False
+                    toks.append(f"L:{d['pid']}:{1 if good else 0}")
+            elif es[0] == "wr":
+                toks.append("W")
+                for hx in es[2:]:
+                    raw = bytes.fromhex(hx) if hx != "-" else b""
+                    try: d = ref.decode(raw)
+                    except ref.Malformed: d = {"type": "malformed"}
+                    code = {"puback": "A", "pubrec": "R", "pubcomp": "C"}.get(d["type"])
+                    toks.append(f"p:{code}:{d['pid']}" if code else "p:o")
+            elif es[0] == "close":
+                toks.append("X")
+            elif es[0] == "recvd" and es[2] == "ok":
+                topic = bytes.fromhex(es[3]) if es[3] != "-" else b""; payload = bytes.fromhex(es[4]) if es[4] != "-" else b""
+                key = ("msg", topic, payload, repr(sorted(M.plist_parse(es[5]).items(), key=repr)))
+                m = intern(key); q, pid = first.get(m, (9, 0))
+                toks.append(f"d:{q}:{pid}:{m}")
+    return toks, None
